@@ -372,6 +372,16 @@ type textKey struct {
 	allowWordBreak bool
 }
 
+// isMandatoryBreak returns true for the characters after which a line always ends.
+// See https://unicode.org/reports/tr14/
+func isMandatoryBreak(r rune) bool {
+	switch r {
+	case '\n', '\f', '\u000b', '\u0085', '\u2028', '\u2029':
+		return true
+	}
+	return false
+}
+
 // same as wrap, but may allows break inside words
 func (fc *FontConfigurationGotext) wrapWordBreak(text []rune, style *TextStyle, maxWidth pr.Float, allowWordBreak bool) FirstLine {
 	if len(text) == 0 {
@@ -539,6 +549,18 @@ func (fc *FontConfigurationGotext) wrapWordBreak(text []rune, style *TextStyle, 
 func (fc *FontConfigurationGotext) splitFirstLine(hyphenCache map[HyphenDictKey]hyphen.Hyphener, text []rune, style *TextStyle,
 	maxWidth pr.MaybeFloat, minimum, isLineStart bool,
 ) FirstLine {
+	// A mandatory break always ends the line: only the text before the first one
+	// may go on the first line, and another line, maybe empty, follows it.
+	for i, r := range text {
+		if isMandatoryBreak(r) {
+			firstLine := fc.splitFirstLine(hyphenCache, text[:i], style, maxWidth, minimum, isLineStart)
+			if firstLine.ResumeAt == -1 {
+				firstLine.ResumeAt = i + 1
+			}
+			return firstLine
+		}
+	}
+
 	// See https://www.w3.org/TR/css-text-3/#white-space-property
 	var (
 		textWrap         = style.textWrap()
